@@ -218,7 +218,7 @@ func (fv *FV) enterBlock(st *State, from, to *ssa.BasicBlock) *State {
 	if li.Spec != nil {
 		for i, c := range li.Spec.Invariants {
 			g := env.Eval(c.E)
-			fv.oblige(st, kind, fmt.Sprintf("loop%d:%s", li.Ord, clauseName(c, i)), pos, g, c.Text)
+			fv.oblige(st, kind, fmt.Sprintf("loop%d:%s", li.Ord, clauseName(c, unlabelledOrd(li.Spec.Invariants, i))), pos, g, c.Text)
 		}
 	}
 	if isBack {
@@ -374,6 +374,18 @@ func clauseName(c *Clause, i int) string {
 		return c.Label
 	}
 	return fmt.Sprintf("%d", i+1)
+}
+
+// unlabelledOrd: position of clause i among the unlabelled clauses of its list (adding a labelled clause
+// must not rename the others).
+func unlabelledOrd(cs []*Clause, i int) int {
+	n := 0
+	for k := 0; k < i && k < len(cs); k++ {
+		if cs[k].Label == "" {
+			n++
+		}
+	}
+	return n
 }
 
 func loopPos(li *LoopInfo) token.Pos {
@@ -607,7 +619,7 @@ func (fv *FV) checkPost(st *State, x *ssa.Return, res []SymVal) {
 			continue
 		}
 		g := env.Eval(c.E)
-		fv.oblige(st, "post", clauseName(c, i), x.Pos(), g, c.Text)
+		fv.oblige(st, "post", clauseName(c, unlabelledOrd(fv.spec.Ensures, i)), x.Pos(), g, c.Text)
 	}
 	for name, h := range st.held {
 		if h {
